@@ -442,13 +442,30 @@ def _unbind(flags, l):
     return frozenset(x for x in flags if not (isinstance(x, tuple) and len(x) == 3 and x[0] == 'bind' and x[1] == l))
 
 
+def _variants(flags):
+    return {x[1]: x[2] for x in flags if isinstance(x, tuple) and len(x) == 3 and x[0] == 'var'}
+
+
 def sim_on_stmt(f, bi, i, stmt, st, stable_fn=None):
-    """Shared statement transfer of the fact simulations: constants and per-path bindings of interesting locals."""
+    """Shared statement transfer of the fact simulations: constants, per-path bindings of interesting locals, and the
+    variant of enum values built on this path (a decision carried in a value: `Verdict::Drop` / `Verdict::Answer(..)`,
+    `Some(..)` / `None` returned by an inlined helper) so that a later `match` on it follows only the matching arm."""
     flags, facts = st
     lhs, rv = stmt['lhs'], stmt['rv']
     if lhs['p']:
         return st
     l = lhs['l']
+    vs = _variants(flags)
+    if l in vs:
+        flags = frozenset(x for x in flags if not (isinstance(x, tuple) and len(x) == 3 and x[0] == 'var' and x[1] == l))
+    if rv['k'] == 'agg' and rv.get('agg') == 'adt' and 'vidx' in rv:
+        flags = flags | {('var', l, rv['vidx'])}
+    elif rv['k'] == 'use' and rv['a']['k'] in ('copy', 'move') and not rv['a']['place']['p'] and rv['a']['place']['l'] in vs:
+        flags = flags | {('var', l, vs[rv['a']['place']['l']])}
+    elif rv['k'] == 'discr' and not rv['place']['p'] and rv['place']['l'] in vs:
+        key0 = ('local', l)
+        facts = frozenset({x for x in facts if x[0] != key0} | {(key0, '==', vs[rv['place']['l']])})
+        return (flags, facts)
     key = ('local', l)
     had = [x for x in facts if x[0] == key]
     INT = ('bool', 'u8', 'usize', 'isize', 'u32', 'u16', 'u64', 'i32')
@@ -502,6 +519,8 @@ def sim_on_term(f, bi, t, st):
     flags, facts = st
     if t['k'] == 'call' and not t['dest']['p']:
         l = t['dest']['l']
+        if l in _variants(flags):
+            flags = frozenset(x for x in flags if not (isinstance(x, tuple) and len(x) == 3 and x[0] == 'var' and x[1] == l))
         key = ('local', l)
         had = [x for x in facts if x[0] == key]
         if had:
